@@ -138,7 +138,8 @@ def run_valid(ctx, pydsdl, ns, seed, orders, workdir):
         shutil.rmtree(base, ignore_errors=True)
 
 
-ERROR_SHAPES = ["missing-name", "missing-version", "self", "cycle2", "cycle3", "case-only", "duplicate-in-lookups", "lookup-not-given", "older-minor-only", "relative-in-other-namespace"]
+ERROR_SHAPES = ["missing-name", "missing-version", "self", "cycle2", "cycle3", "case-only", "duplicate-in-lookups", "lookup-not-given", "older-minor-only",
+                "relative-in-other-namespace", "self-with-namesake", "cycle2-with-namesake", "cycle3-with-namesake"]
 
 
 def make_error(rng, ns0, shape):
@@ -173,11 +174,11 @@ def make_error(rng, ns0, shape):
         if nv in vers or nv == (0, 0):
             return None
         d["refs"].append({"text": "%s.%d.%d" % (GN.full_name(ns, o), nv[0], nv[1])})
-    elif shape == "self":
+    elif shape in ("self", "self-with-namesake"):
         d["refs"].append({"text": "%s.%d.%d" % (rng.choice([GN.full_name(ns, d), d["short"]]), d["ver"][0], d["ver"][1])})
-    elif shape in ("cycle2", "cycle3"):
+    elif shape.startswith("cycle"):
         # new definitions forming a cycle with the victim
-        k = 2 if shape == "cycle2" else 3
+        k = 2 if shape.startswith("cycle2") else 3
         names = ["Cyc%d" % j for j in range(k - 1)]
         new = []
         for nm in names:
@@ -187,6 +188,14 @@ def make_error(rng, ns0, shape):
         chain = [v] + list(range(len(defs) - len(new), len(defs)))
         for a, b in zip(chain, chain[1:] + [chain[0]]):
             defs[a]["refs"].append({"target": b, "spell": rng.choice(["relative", "absolute"]), "array": None})
+    if shape.endswith("-with-namesake"):
+        # a second directory with the same root namespace name, given as a lookup, holds a definition with the same full
+        # name and version as the victim: a self reference / cycle must still fail instead of resolving to the namesake
+        ns["roots"].append({"dir": "namesake/" + ns["roots"][0]["name"], "name": ns["roots"][0]["name"]})
+        r = len(ns["roots"]) - 1
+        defs.append({"root": r, "ns": list(d["ns"]), "short": d["short"], "ver": tuple(d["ver"]), "port": None, "ext": ".dsdl", "id": 97000, "refs": [],
+                     "kind": "msg", "sealed": True, "extent": None, "deprecated": False, "extra": []})
+        lookups = lookups + [r]
     elif shape == "case-only":
         o = rng.choice([x for x in defs if x is not d and x["kind"] == "msg"] or [None])
         if o is None or GN.full_name(ns, o).lower() == GN.full_name(ns, d).lower():
